@@ -62,7 +62,7 @@ type Contract struct {
 	}
 	Ghost   []string
 	Facts   []*FactDef // parameterised preconditions: required for all parameter values, used by explicit instantiation
-	Split   []*Clause // case split: one verification unit per case (added to the preconditions) + exhaustiveness obligation
+	Split   []*Clause  // case split: one verification unit per case (added to the preconditions) + exhaustiveness obligation
 	Ats     []*AtStmt
 	Options map[string]string
 	File    string
